@@ -14,6 +14,9 @@ import Bridge.ScanTree
 import Bridge.ScanExcl
 import PtaProofs.Lemmas.GlobLabel
 import PtaProofs.Lemmas.ScanExclude
+import PtaSpec.GlobSem
+import Bridge.ScanAbs
+import PtaProofs.Lemmas.GlobMeaning
 namespace Pta.C08
 open Pta PtaSpec
 
@@ -30,6 +33,60 @@ theorem convert_shape (p : Str) :
 /-- the glob theorem: matching the converted pattern = the documented meaning of the glob pattern -/
 theorem glob_spec (p s : Str) : matchEmitted (convertPartialMatch p) s = some (globSpec p s) :=
   Pta.glob_spec_lemma p s
+
+/-- `glob_meaning` (audit finding F11): the flag-and-slice reading `globSpec` IS the independent meaning
+    `PtaSpec.globMeaning` (PtaSpec/GlobSem.lean: the pattern is literal text `lit` with an optional star in front and an
+    optional star behind — the lone `"*"` being both —, and the subject is `pre ++ lit ++ suf` with `pre` / `suf` empty
+    where there is no star), for ALL patterns and subjects, `"*"`, `"**"` and `""` included -/
+theorem glob_meaning (p s : Str) : globSpec p s = true ↔ globMeaning p s := Pta.glob_meaning_lemma p s
+
+/-- so `glob_spec` is a statement against an independent meaning: the converted pattern matches exactly the subjects the
+    glob pattern means -/
+theorem glob_spec_meaning (p s : Str) : matchEmitted (convertPartialMatch p) s = some true ↔ globMeaning p s := by
+  rw [glob_spec, Option.some.injEq]; exact glob_meaning p s
+
+/-- the boundary patterns: `"*"` and `"**"` match everything, `""` matches the empty subject only, and `"***"` matches
+    the subjects containing a star -/
+theorem glob_boundary (s : Str) :
+    globMeaning "*".toList s ∧ globMeaning "**".toList s ∧ (globMeaning "".toList s ↔ s = []) ∧
+    (globMeaning "***".toList s ↔ '*' ∈ s) := by
+  refine ⟨(glob_meaning _ s).1 ?_, (glob_meaning _ s).1 ?_, ?_, ?_⟩
+  · show isInfix [] s = true
+    rw [Pta.isInfix_iff]; exact List.nil_infix
+  · show isInfix [] s = true
+    rw [Pta.isInfix_iff]; exact List.nil_infix
+  · rw [← glob_meaning]
+    show (s == []) = true ↔ s = []
+    simp
+  · rw [← glob_meaning]
+    show isInfix ['*'] s = true ↔ '*' ∈ s
+    rw [Pta.isInfix_iff]
+    constructor
+    · rintro ⟨a, b, rfl⟩; simp
+    · intro h
+      obtain ⟨a, b, rfl⟩ := List.append_of_mem h
+      exact ⟨a, b, by simp⟩
+
+/-- `.py` files: `isPyFile` means "a non-empty stem followed by `.py`" (`PtaSpec.isPyName`), … -/
+theorem py_file_meaning (name : Str) : isPyFile name = true ↔ ∃ stem, isPyName name stem := Pta.isPyFile_iff name
+
+/-- … `dropSuffix` returns that stem, … -/
+theorem drop_suffix_py (name stem : Str) (h : isPyName name stem) : dropSuffix name = stem :=
+  Pta.dropSuffix_pyName name stem h
+
+/-- … and this is how the specification's view of a directory entry (`toSEntry`, Bridge/ScanAbs.lean) gets its `isPy` flag
+    and its `stem`: a file entry whose last path component is `stem ++ ".py"` -/
+theorem entry_py_stem (excl : Str → Bool) (base : Str) (e : Entry) (name : Str) (hn : e.rel.getLast? = some name) :
+    ((toSEntry excl base e).isPy = true ↔ e.isDir = false ∧ ∃ stem, isPyName name stem) ∧
+    ∀ stem, isPyName name stem → (toSEntry excl base e).stem = stem := by
+  simp only [toSEntry, hn, Bool.and_eq_true, Bool.not_eq_true', py_file_meaning]
+  exact ⟨trivial, fun stem h => drop_suffix_py name stem h⟩
+
+/-! non-vacuity -/
+example : globMeaning "*a.b".toList "xa.b".toList := (glob_meaning _ _).1 (by decide)
+example : ¬ globMeaning "*a.b".toList "xaxb".toList := fun h => absurd ((glob_meaning _ _).2 h) (by decide)
+example : isPyName "a.b.py".toList "a.b".toList := ⟨by decide, by decide⟩
+example : isPyFile ".py".toList = false ∧ isPyFile "x.py".toList = true ∧ dropSuffix "a.b.py".toList = "a.b".toList := by decide
 
 /-- all other characters are literal: a pattern without `*` at either end matches exactly itself -/
 theorem literal_pattern (p s : Str) (h1 : startsWith ['*'] p = false) (h2 : endsWith ['*'] p = false) :
